@@ -5,7 +5,7 @@ import sys
 
 import lib
 from lib import sx, parse_sx
-from gen import ctable, ranges, cdump
+from gen import ctable, ranges, cdump, reqtext
 
 PROOF_FILE = "C03"
 LEVEL = "proof"
@@ -103,6 +103,26 @@ CORPUS = [
 ]
 
 
+def canon_idents(x):
+    """an identifier made of digits only is numeric: the generators occasionally derive such a
+    string from an alphanumeric one (0a -> 0); returns None when it would have a leading zero"""
+    if isinstance(x, list):
+        if len(x) == 2 and x[0] == 1 and isinstance(x[1], (bytes, bytearray)):
+            if x[1].isdigit():
+                if len(x[1]) > 1 and x[1][:1] == b"0":
+                    return None
+                return [0, int(x[1])]
+            return x
+        out = []
+        for e in x:
+            r = canon_idents(e)
+            if r is None:
+                return None
+            out.append(r)
+        return out
+    return x
+
+
 def gen_cases(ctx):
     rng = ctx.rng
     per = ctx.scale(1100, 55000)
@@ -112,6 +132,11 @@ def gen_cases(ctx):
             ast = ranges.gen_ast(rng, eco)
             text = ranges.print_ast(rng, eco, ast)
             pv = ranges.probes(rng, eco, ast, 4)
+            if eco in ("npm", "cargo"):
+                ast = canon_idents(ast)
+                if ast is None:
+                    continue
+                pv = [q for q in (canon_idents(v) for v in pv) if q is not None]
             cases.append(mk(eco, ast, text, pv))
     for eco, ast, text, pv in CORPUS:
         cases.append(mk(eco, ast, text, pv))
@@ -179,6 +204,7 @@ def confirm_with_tools(ctx, cases, hits, spec):
     rng = ctx.rng
     verdict = {}
     status = {}
+    examples = []
     for eco in ranges.ECOS:
         idxs = sorted(set(h.idx for h in hits if cases[h.idx]["eco"] == eco))
         allidx = [i for i, c in enumerate(cases) if c["eco"] == eco]
@@ -200,16 +226,22 @@ def confirm_with_tools(ctx, cases, hits, spec):
             if r is None:
                 verdict[i] = None                       # the tool rejects the text
                 mism += 1
+                if len(examples) < 6:
+                    examples.append("%s: the tool rejects %r" % (eco, cases[i]["text"]))
                 continue
             verdict[i] = [1 if b else 0 for b in r]
-            for a, b in zip(spec[i], verdict[i]):
+            for k, (a, b) in enumerate(zip(spec[i], verdict[i])):
                 pairs += 1
                 if a != b:
                     mism += 1
+                    if len(examples) < 6:
+                        examples.append("%s: %r on %r: specification %d, tool %d" % (eco, cases[i]["text"], cases[i]["ptexts"][k], a, b))
         status[eco] = "validated on %d requirements / %d pairs, %d disagreements between specification and tool" % (len(want), pairs, mism)
         if mism:
             ctx.notes.append("SPEC VALIDATION: %s specification disagrees with the real tool on %d pairs" % (eco, mism))
     ctx.extra["spec_validation"] = status
+    if examples:
+        ctx.extra["spec_validation_disagreements"] = examples
     return verdict
 
 
@@ -419,6 +451,26 @@ def run(ctx):
             nd += 1
             if nd <= 40:
                 ctx.divergence("pconstraint", {"system": NAMES[c["sys"]], "requirement": c["text"]}, i[:1500], m[:1500])
+    # a second, text-level stream (all seven systems, half of it mutated): correspondence only
+    rng = ctx.rng
+    tc = []
+    for k in range(ctx.scale(3500, 150000)):
+        sysi = [0, 1, 2, 3, 4, 5, 6][k % 7]
+        t = reqtext.requirement(rng, sysi, 0.3 if rng.random() < 0.5 else 0.0)
+        probes = reqtext.probes(rng, sysi, [t], n_random=2, cap=8)
+        keys = set((0, x) for x in ctable.candidates(t)) | set((0, x) for x in probes)
+        if sysi == 3:
+            keys.add((0, b"0"))
+        tc.append({"sys": sysi, "head": [str(sysi), sx(t), sx(probes)], "keys": keys, "text": t})
+    ti = ctx.impl("cmatch", ctable.impl_args(tc))
+    tm = ctable.run_model(ctx, tables, "cmatch", tc)
+    ctx.count("corr:cmatch-text-stream", len(tc))
+    for c, i, m in zip(tc, ti, tm):
+        ctx.count("text-stream:%s" % ("ok" if i.startswith('("ok"') else ("panic" if "panic" in i else "rejected")))
+        if i != m and '"oom"' not in m:
+            nd += 1
+            if nd <= 40:
+                ctx.divergence("cmatch", {"system": NAMES[c["sys"]], "requirement": c["text"]}, i[:1500], m[:1500])
     spec = spec_answers(ctx, cases)
     hits = oracle(ctx, cases, impl_lines, spec)
     verdict = confirm_with_tools(ctx, cases, hits, spec)
